@@ -55,10 +55,19 @@ def ready (cfg : RCfg) : Nat → RState → Nat → List RTok → List Nat → L
 def splitBar (ws : List String) : List String × List String :=
   (ws.takeWhile (· ≠ "|"), (ws.dropWhile (· ≠ "|")).drop 1)
 
+/-- what the kernel reports after an EAGAIN: `e` write-ready alone, `m` write-ready merged with read-ready -/
+def evOf (w : String) : Events := if w = "m" then { in_ := true, out := true } else { out := true }
+
+/-- the kernel answers the writer gets to see: it goes on past an EAGAIN only if `handleEvent` posts the write-ready token -/
+def reachable : List String → List String
+  | [] => []
+  | w :: r =>
+    if (w = "e" || w = "m") && !(handleEvent (evOf w)).contains .writeReady then [w] else w :: reachable r
+
 /-- a write-ready event that arrives merged with a read-ready event (`m` among the kernel answers the writer got to):
     handleEvent also runs onReadReady, whose read finds nothing - it may still grow a full buffer and shows the window -/
 def mergedRead (d : St) (res : List String) (calls : Nat) : St :=
-  if (res.take calls).contains "m" then
+  if (res.take calls).any (fun w => (w = "e" || w = "m") && (handleEvent (evOf w)).contains .readReady) then
     let r0 := if d.r.buf.isEmpty then { d.r with buf := List.replicate 16 0 } else d.r
     let (s', pos', _, _) := ready {} 3 r0 d.rpos [.e] [] []
     { d with r := s', rpos := pos' }
@@ -74,12 +83,12 @@ def step (d : St) (line : String) : St × String :=
       s!"shown={Drv.joinWith "," (shown.map showW)} start={s'.start} end={s'.end_} cap={s'.buf.length} closed={if closed then 1 else 0}")
   | "write" :: n :: res =>
     let data := genW d.wpos (Drv.nat! n)
-    let (acc, calls, ok) := EventConn.write (res.length + 2) data (res.map parseW) [] 0
+    let (acc, calls, ok) := EventConn.write (res.length + 2) data ((reachable res).map parseW) [] 0
     (mergedRead { d with wpos := d.wpos + Drv.nat! n } res calls, s!"acc={showW acc} calls={calls} done={if ok then 1 else 0}")
   | "writev" :: sizes :: res =>
     let ns := Drv.natsOf sizes
     let (data, p) := ns.foldl (fun (acc : List (List Nat) × Nat) n => (acc.1 ++ [genW acc.2 n], acc.2 + n)) ([], d.wpos)
-    let (acc, calls, ok) := EventConn.writev (data.length + 2) data (res.map parseW) [] 0
+    let (acc, calls, ok) := EventConn.writev (data.length + 2) data ((reachable res).map parseW) [] 0
     (mergedRead { d with wpos := p } res calls, s!"acc={showW acc} calls={calls} done={if ok then 1 else 0}")
   | _ => (d, "bad-op")
 
